@@ -132,7 +132,10 @@ def build_frame(fr):
     n = fr["n"]
     data = {}
     for col in fr["cols"]:
-        data[col["name"]] = pd.Series(build_array(col, n), name=col["name"])
+        arr = build_array(col, n)
+        # pandas >= 3 would infer the `str` dtype from an object array of strings
+        dt = object if getattr(arr, "dtype", None) == object else None
+        data[col["name"]] = pd.Series(arr, name=col["name"], dtype=dt)
     df = pd.DataFrame(data, columns=[c["name"] for c in fr["cols"]])
     if len(df.columns) and len(df) != n:  # pragma: no cover
         raise AssertionError("builder produced %d rows for n=%d" % (len(df), n))
@@ -140,7 +143,8 @@ def build_frame(fr):
         df = pd.DataFrame(index=pd.RangeIndex(n))
     ic = fr.get("index")
     if ic is not None:
-        df.index = pd.Index(build_array(ic, n), name=ic["name"])
+        arr = build_array(ic, n)
+        df.index = pd.Index(arr, name=ic["name"], dtype=(object if getattr(arr, "dtype", None) == object else None))
     return df
 
 
